@@ -4,6 +4,7 @@ import gen
 PROPS = {
     "C10": dict(
         files=[("op", "c10_op.rs")],
+        generators=[gen.gen_c10],
         bounds="see per-harness 'bound'",
         out="float remainder (%): CBMC's fmod is not exact; folds of >2 symbolic doubles; text->number beyond the corpus",
     ),
